@@ -254,12 +254,12 @@ class C13(BaseCheck):
             if k.random() < 0.6:
                 spec['refs'][str(j)] = k.randrange(nrows)
         pool = self._gen_pool(k, spec, k.choice([3, 4, 6, 8]))
-        nthreads = k.choice([2, 2, 3, 3, 4])
+        nthreads = k.choice([2, 2, 3, 3, 4]) if tier == 'quick' else k.choice([2, 3, 3, 4, 5])
         threads = []
         scan_id = 0
         for t in range(nthreads):
             ops = []
-            for _ in range(k.choice([1, 1, 2, 3, 4, 6])):
+            for _ in range(k.choice([1, 1, 2, 3, 4, 6]) if tier == 'quick' else k.choice([1, 2, 3, 4, 6, 9])):
                 kind = r.choice(['filter', 'filter', 'filter', 'filter', 'limit', 'hold', 'callheld', 'scan', 'bad', 'recheck', 'spoil'])
                 if kind == 'filter':
                     ops.append({'op': 'filter', 'f': r.randrange(len(pool))})
@@ -282,7 +282,7 @@ class C13(BaseCheck):
             threads.append({'ops': ops})
         strat = k.choice([{'kind': 'random', 'p': 0.02}, {'kind': 'random', 'p': 0.05}, {'kind': 'random', 'p': 0.2},
                           {'kind': 'random', 'p': 0.5}, {'kind': 'pct', 'd': 1}, {'kind': 'pct', 'd': 2},
-                          {'kind': 'pct', 'd': 3}])
+                          {'kind': 'pct', 'd': 3}] + ([] if tier == 'quick' else [{'kind': 'pct', 'd': 4}, {'kind': 'pct', 'd': 5}]))
         knobs = {
             'cache': k.choice([1, 2, 3, 8, None, None]),
             'strategy': strat,
